@@ -7,6 +7,7 @@ package main
 import (
 	"fmt"
 	"math/bits"
+	"strconv"
 	"strings"
 )
 
@@ -121,12 +122,25 @@ func NewTermTable() *TermTable {
 }
 
 func (tt *TermTable) key(t *Term) string {
-	var sb strings.Builder
-	fmt.Fprintf(&sb, "%d/%d/%d/%d/%d/%d/%s", t.Op, t.S.K, t.S.W, t.Val, t.A, t.B, t.Name)
+	buf := make([]byte, 0, 48)
+	buf = strconv.AppendInt(buf, int64(t.Op), 10)
+	buf = append(buf, '/')
+	buf = strconv.AppendInt(buf, int64(t.S.K), 10)
+	buf = append(buf, '/')
+	buf = strconv.AppendInt(buf, int64(t.S.W), 10)
+	buf = append(buf, '/')
+	buf = strconv.AppendUint(buf, t.Val, 10)
+	buf = append(buf, '/')
+	buf = strconv.AppendInt(buf, int64(t.A), 10)
+	buf = append(buf, '/')
+	buf = strconv.AppendInt(buf, int64(t.B), 10)
+	buf = append(buf, '/')
+	buf = append(buf, t.Name...)
 	for _, a := range t.Args {
-		fmt.Fprintf(&sb, ",%d", a.ID)
+		buf = append(buf, ',')
+		buf = strconv.AppendInt(buf, int64(a.ID), 10)
 	}
-	return sb.String()
+	return string(buf)
 }
 
 func (tt *TermTable) mk(t *Term) *Term {
@@ -485,6 +499,14 @@ func (tt *TermTable) Cmp(op Op, a, b *Term) *Term {
 	if a == b {
 		return tt.Bool(op == OUle || op == OSle)
 	}
+	// comparison of a constant with an ite-tree of constants (e.g. the -1/0/1 of a
+	// byte-string comparison): push the comparison into the leaves
+	if a.IsConst() && iteOfConsts(b, 4) {
+		return tt.mapIte(b, func(leaf *Term) *Term { return tt.Cmp(op, a, leaf) })
+	}
+	if b.IsConst() && iteOfConsts(a, 4) {
+		return tt.mapIte(a, func(leaf *Term) *Term { return tt.Cmp(op, leaf, b) })
+	}
 	if op == OUlt && b.IsConst() && b.Val == 0 {
 		return tt.False
 	}
@@ -492,6 +514,23 @@ func (tt *TermTable) Cmp(op Op, a, b *Term) *Term {
 		return tt.True
 	}
 	return tt.mk(&Term{Op: op, S: BoolSort, Args: []*Term{a, b}})
+}
+
+func iteOfConsts(t *Term, depth int) bool {
+	if t.Op == OConst {
+		return true
+	}
+	if t.Op != OIte || depth == 0 {
+		return false
+	}
+	return iteOfConsts(t.Args[1], depth-1) && iteOfConsts(t.Args[2], depth-1)
+}
+
+func (tt *TermTable) mapIte(t *Term, f func(*Term) *Term) *Term {
+	if t.Op == OConst {
+		return f(t)
+	}
+	return tt.Ite(t.Args[0], tt.mapIte(t.Args[1], f), tt.mapIte(t.Args[2], f))
 }
 
 func (tt *TermTable) BNot(a *Term) *Term {
